@@ -2,7 +2,8 @@
 //! the slice of the same elements.
 //!
 //! Element codes: ty 0 u8 / 1 i32: the value; ty 2 f64: 1000 NaN, 1001 -0.0, else c/2;
-//! ty 3 String: bytes as base-256 digits after a leading 1; ty 4 GenericArray<u8,U2>: 256x+y.
+//! ty 3 String: bytes as base-256 digits after a leading 1; ty 4 GenericArray<u8,U2>: 256x+y;
+//! ty 5 Kv {k, v}: 256k+v -- == compares both fields, the ordering only the key.
 //!
 //! pair case    0 ty n a.. b..
 //!   OBS eq ne pcmp lt le gt ge F1  cmp hmA hmB hmShort hmLong btA btB btShort btLong F2
@@ -144,6 +145,30 @@ impl Elem for String {
     }
     fn same(&self, o: &Self) -> bool {
         self == o
+    }
+}
+/// equality finer than the ordering: == looks at both fields, partial_cmp / cmp at the key only
+#[derive(Clone, Debug, PartialEq, Eq, Hash)]
+struct Kv {
+    k: u8,
+    v: u8,
+}
+impl PartialOrd for Kv {
+    fn partial_cmp(&self, o: &Kv) -> Option<Ordering> {
+        Some(self.k.cmp(&o.k))
+    }
+}
+impl Ord for Kv {
+    fn cmp(&self, o: &Kv) -> Ordering {
+        self.k.cmp(&o.k)
+    }
+}
+impl Elem for Kv {
+    fn dec(c: i128) -> Self {
+        Kv { k: (c / 256) as u8, v: (c % 256) as u8 }
+    }
+    fn same(&self, o: &Self) -> bool {
+        self.k == o.k && self.v == o.v
     }
 }
 type Nest = GenericArray<u8, U2>;
@@ -424,6 +449,7 @@ fn run_case(case: &[i128]) -> (Vec<i128>, Vec<String>) {
             2 => pair_partial_only::<f64>(a, b, &mut out, &mut orc),
             3 => pair_all::<String>(a, b, &mut out, &mut orc),
             4 => pair_all::<Nest>(a, b, &mut out, &mut orc),
+            5 => pair_all::<Kv>(a, b, &mut out, &mut orc),
             _ => panic!("bad type {}", ty),
         }
     } else {
@@ -443,6 +469,7 @@ fn run_case(case: &[i128]) -> (Vec<i128>, Vec<String>) {
             2 => single_nohash::<f64>(a, &mut out, &mut orc),
             3 => single_all::<String>(a, &mut out, &mut orc),
             4 => single_all::<Nest>(a, &mut out, &mut orc),
+            5 => single_all::<Kv>(a, &mut out, &mut orc),
             _ => panic!("bad type {}", ty),
         }
     }
@@ -512,7 +539,9 @@ fn alphabet(ty: i128) -> Vec<i128> {
         // "", "a", "ab", "b", "a\"" (needs escaping in Debug)
         3 => vec![1, 256 + 97, (256 + 97) * 256 + 98, 256 + 98, (256 + 97) * 256 + 34],
         // [0,0] [0,1] [1,0] [255,255] [7,0]
-        _ => vec![0, 1, 256, 255 * 256 + 255, 7 * 256],
+        4 => vec![0, 1, 256, 255 * 256 + 255, 7 * 256],
+        // Kv: {0,0} {0,1} {1,0} {1,5} {7,0}: same key with different values, different keys
+        _ => vec![0, 1, 256, 256 + 5, 7 * 256],
     }
 }
 
@@ -541,7 +570,7 @@ fn main() {
         return;
     }
     let thorough = a.tier == "thorough";
-    for ty in 0..5i128 {
+    for ty in 0..6i128 {
         let alpha = alphabet(ty);
         // exhaustive pairs: (length, letters)
         let mut scopes: Vec<(usize, usize)> = vec![];
@@ -579,7 +608,7 @@ fn main() {
     // seeded larger lengths
     let mut rng = Rng::new(a.seed);
     let (npairs, nsingles) = if thorough { (2000, 200) } else { (60, 16) };
-    for ty in 0..5i128 {
+    for ty in 0..6i128 {
         let alpha = alphabet(ty);
         for n in [5usize, 8, 15, 16, 17, 31, 32, 33, 64, 65] {
             for _ in 0..npairs {
